@@ -11,6 +11,7 @@ import (
 	MapSet "github.com/deckarep/golang-set/v2"
 	"github.com/gopher-fleece/gleece/v2/gast"
 	"github.com/gopher-fleece/gleece/v2/infrastructure/logger"
+	"github.com/gopher-fleece/gleece/v2/infrastructure/verifhook"
 	"golang.org/x/tools/go/packages"
 )
 
@@ -51,6 +52,7 @@ func (facade *PackagesFacade) GetAllSourceFiles() []*ast.File {
 	for _, file := range facade.files {
 		result = append(result, file)
 	}
+	result = verifhook.Permute("GetAllSourceFiles", result, func(f *ast.File) string { return facade.fileSet.Position(f.Pos()).Filename })
 	return result
 }
 
@@ -166,6 +168,7 @@ func (facade *PackagesFacade) loadAndCacheExpressions(
 	packageExpressions []string,
 	relevantFiles map[string]struct{},
 ) ([]*packages.Package, error) {
+	verifhook.Emit("PackagesLoad", "expressions", packageExpressions)
 	// We're using LoadAllSyntax here which probably tanks performance.
 	// Should improve, at a later point
 	cfg := &packages.Config{Mode: packages.LoadAllSyntax, Fset: facade.fileSet}
